@@ -868,6 +868,41 @@ func runStorm(c caseT) obsT {
 			}
 		}
 	}
+	// a subscriber with backpressure that is still being handed its seed values while an item is deleted: it keeps
+	// receiving, so the delete (which sends while it holds the collection's lock) gets through and nobody is stuck
+	if col != nil && o.WriterStall == 0 && o.Unclosed == 0 {
+		seedCol := resource.NewCollection(append(ropts, resource.WithInitialRecord(ids[0], msg(1)),
+			resource.WithInitialRecord(ids[1], msg(2)), resource.WithInitialRecord(ids[2], msg(3)))...)
+		sctx, scancel := context.WithCancel(context.Background())
+		sch := seedCol.Pull(sctx, resource.WithBackpressure(true))
+		got := 0
+		take := func(d time.Duration) bool {
+			select {
+			case _, ok := <-sch:
+				if ok {
+					got++
+				}
+				return ok
+			case <-time.After(d):
+				return false
+			}
+		}
+		take(2 * time.Second) // the first seed value
+		deleted := make(chan struct{})
+		go func() { defer close(deleted); _, _ = seedCol.Delete(ids[c.Iter%3], resource.WithAllowMissing(true)) }()
+		time.Sleep(time.Duration(200+rnd.Intn(800)) * time.Microsecond)
+		for take(300 * time.Millisecond) { // the consumer keeps receiving: the other seeds, then the removal
+		}
+		select {
+		case <-deleted:
+		case <-time.After(4 * time.Second):
+			o.WriterStall++
+		}
+		if got < 4 && o.WriterStall == 0 {
+			o.SurvivorMissed++ // three seed values and the removal were owed to a consumer that kept receiving
+		}
+		scancel()
+	}
 	// consumers that take the seed, stop receiving while a change is on its way to them, cancel and walk away
 	// (a handler whose stream broke): the write gets through, the goroutines end, the channel is closed
 	var walked []func() bool
